@@ -66,6 +66,20 @@ namespace verif
             return -1;
         }
         virtual void unwind(int) {}
+        // the same through memory_stack_raii_unwind: mode 0 plain scope, 1 move-constructed unwinder,
+        // 2 move-assigned onto a released unwinder (the moved-from ones must stay silent)
+        virtual void unwind_raii(int j, int)
+        {
+            unwind(j);
+        }
+        // an unwinder that outlives the command: created in an inner scope for marker j and move-assigned to a
+        // released one outside; nothing may be unwound before drop_raii()
+        virtual bool keep_raii(int)
+        {
+            return false;
+        }
+        virtual void drop_raii() {}
+        virtual void drop_raii_released() {} // give the kept unwinder up without unwinding
         virtual int  cmp(int, int)
         {
             return 0;
@@ -468,6 +482,54 @@ namespace verif
             auto& y = markers[static_cast<std::size_t>(j)];
             return (x < y ? 1 : 0) | (x <= y ? 2 : 0) | (x == y ? 4 : 0) | (x != y ? 8 : 0)
                    | (x > y ? 16 : 0) | (x >= y ? 32 : 0);
+        }
+        using unwinder = fm::memory_stack_raii_unwind<A>;
+        unwinder* kept = nullptr; // (plain pointer: the subject object is copied when the stack moves)
+        void unwind_raii(int j, int mode) override
+        {
+            auto m = markers[static_cast<std::size_t>(j)];
+            if (mode == 1)
+            {
+                unwinder u(*a, m);
+                unwinder v(std::move(u));
+            }
+            else if (mode == 2)
+            {
+                unwinder outer(*a); // at the current top: would unwind nothing
+                outer.release();
+                {
+                    unwinder inner(*a, m);
+                    outer = std::move(inner);
+                } // the moved-from inner must not unwind here ...
+            }     // ... outer does, here
+            else
+            {
+                unwinder u(*a, m);
+            }
+        }
+        bool keep_raii(int j) override
+        {
+            if (kept)
+                return false;
+            kept = new unwinder(*a);
+            kept->release();
+            {
+                unwinder inner(*a, markers[static_cast<std::size_t>(j)]);
+                *kept = std::move(inner);
+            }
+            return true;
+        }
+        void drop_raii() override
+        {
+            delete kept;
+            kept = nullptr;
+        }
+        void drop_raii_released() override
+        {
+            if (kept)
+                kept->release();
+            delete kept;
+            kept = nullptr;
         }
         void shrink() override
         {
